@@ -47,6 +47,17 @@ def comprehension(I, node, env, sl, elt_fn):
         # (isinstance(inner, C) and inner.value == 0 for inner in children): a list of formulas
         fam = sl.family
         return SList(sl.length, lambda t: child_predicate(I, elt, env, g.target.id, fam, t), f"pred({sl.tag})")
+    fo = getattr(sl, "filter_of", None)
+    if fo is not None and isinstance(g.target, ast.Name) and isinstance(elt, ast.Attribute) and isinstance(elt.value, ast.Name) \
+            and elt.value.id == g.target.id and elt.attr in CHILD_ATTRS:
+        # (constant.value for constant in constants): every element is of the guarding class
+        owner = CHILD_ATTRS[elt.attr]
+        if getattr(sl, "guard_class", None) not in ((owner,) if isinstance(owner, str) else owner):
+            _unsupported(f"attribute {elt.attr} of the elements of a list not known to be of a class that has it")
+        whole, sigma, _p = fo
+        f = whole.family.attr_func(elt.attr)
+        isint = elt.attr == "n"
+        return SList(sl.length, lambda u: SNum(f(sigma(u)), isint if isint else z3.Bool(f"{elt.attr}_is_int[{sl.tag}]")), f"{elt.attr}({sl.tag})")
     pre = _single_child_call(elt, g.target)
     if pre is not None and sl.family is not None:
         # e.g. mf.multiply(inner._numeric_partial(name, point), *others) for (i, inner) in enumerate(inners):
@@ -57,6 +68,22 @@ def comprehension(I, node, env, sl, elt_fn):
         results = map_eval_like(I, sl, method, args)
         return lazy_map(I, node, env, sl, None, replaced=(call, results))
     return lazy_map(I, node, env, sl, elt_fn)
+
+
+def helper_partition(I, fd, args):
+    """utilities.partition_by_predicate(children, predicate) -> (those that satisfy it, the others),
+    both in order.  The predicate must be a closure whose body is a child predicate."""
+    sl, pred = args
+    from .values import Closure
+    if not (isinstance(pred, Closure) and pred.node is not None and isinstance(pred.node, ast.Lambda)
+            and len(pred.node.args.args) == 1 and _is_child_predicate(pred.node.body, pred.node.args.args[0].arg)):
+        _unsupported("partition_by_predicate with a predicate that is not a class / parameter test of the element")
+    var = pred.node.args.args[0].arg
+    hits = filter_list(I, sl, pred.node.body, pred.env, var)
+    misses = filter_list(I, sl, ast.UnaryOp(op=ast.Not(), operand=pred.node.body), pred.env, var)
+    hits.partition_twin, misses.partition_twin = misses, hits
+    I.path.assume(hits.length + misses.length == sl.length)
+    return (hits, misses)
 
 
 def filter_list(I, sl, cond, env, var):
@@ -76,6 +103,9 @@ def filter_list(I, sl, cond, env, var):
     r = SList(c, lambda u: sl.elem(sigma(u)), tag, family=None)
     r.all_expr = getattr(sl, "all_expr", False)
     r.filter_of = (sl, sigma, pred)
+    r.guard_class = None
+    if isinstance(cond, ast.Call):
+        r.guard_class = getattr(getattr(I.eval(cond.args[1], env), "cls", None), "name", None)
     return r
 
 
@@ -334,8 +364,9 @@ def b_sum(I, sl, start=0):
 def copy_list(I, sl):
     r = SList(sl.length, sl.elem, f"copy({sl.tag})", family=sl.family)
     r.all_expr = getattr(sl, "all_expr", False)
-    if hasattr(sl, "filter_of"):
-        r.filter_of = sl.filter_of
+    for a in ("filter_of", "guard_class", "partition_twin"):
+        if hasattr(sl, a):
+            setattr(r, a, getattr(sl, a))
     return r
 
 
@@ -350,8 +381,12 @@ def concat_star(I, extra):
     if len(extra) == 1:
         return extra[0].slist
     stars = [i for i, x in enumerate(extra) if isinstance(x, StarArgs)]
+    if len(stars) == 1 and stars[0] == 0 and all(isinstance(x, Obj) for x in extra[1:]):
+        r = gmode.SnocList(extra[0].slist, extra[1:])
+        r.all_expr = getattr(extra[0].slist, "all_expr", False) and all(_is_expression(I, x) for x in extra[1:])
+        return r
     if len(stars) != 1 or stars[0] != len(extra) - 1:
-        _unsupported("a symbolic-length list that is not the last positional argument")
+        _unsupported("a symbolic-length list that is neither the first nor the last positional argument")
     pre, sl = extra[:-1], extra[-1].slist
     if all(isinstance(x, Obj) for x in pre):
         r = gmode.ConsList(pre, sl)
@@ -432,6 +467,8 @@ def helper_nary_init(I, fd, args):
         _unsupported("constructor call inside an element function with arguments not known to be expressions")
     if isinstance(sl, gmode.ConsList):
         inn = gmode.ConsList(sl.prefix, sl.rest)
+    elif isinstance(sl, gmode.SnocList):
+        inn = gmode.SnocList(sl.rest, sl.suffix)
     else:
         inn = SList(sl.length, sl.elem, f"copy({sl.tag})", family=sl.family)
         inn.all_expr = True
@@ -444,7 +481,10 @@ def helper_nary_init(I, fd, args):
 
 
 HELPER_CONTRACTS = {
-    "NAryExpression.__init__": (helper_nary_init, lambda args, I=None: len(args) >= 2 and isinstance(args[-1], StarArgs) and isinstance(args[0], Obj)),
+    "NAryExpression.__init__": (helper_nary_init, lambda args, I=None: len(args) >= 2 and isinstance(args[0], Obj)
+                                and sum(isinstance(x, StarArgs) for x in args) == 1),
+    "utilities.partition_by_predicate": (lambda I, fd, args: helper_partition(I, fd, args),
+                                         lambda args: len(args) == 2 and isinstance(args[0], SList) and args[0].family is not None),
     "math_functions.multiply": (helper_multiply, lambda args: any(isinstance(x, StarArgs) for x in args)),
     "utilities.list_without_entry_at": (helper_list_without_entry_at, lambda args: len(args) == 2 and isinstance(args[0], SList)),
 }
@@ -456,7 +496,8 @@ def helper_contract(I, fd, args, kwargs):
     if ent is None or kwargs or I.ghost.get("inline_helper") == fd.qualname or not ent[1](args):
         return NotImplemented
     if fd.qualname == "NAryExpression.__init__" and not I.ghost.get("lazy_depth") \
-            and not (len(args) > 2 and all(isinstance(x, Obj) for x in args[1:-1])):
+            and not (len(args) > 2 and all(isinstance(x, Obj) for x in args[1:-1])) \
+            and not (len(args) > 2 and isinstance(args[1], StarArgs) and all(isinstance(x, Obj) for x in args[2:])):
         return NotImplemented         # constructions at statement level run the real constructor
                                       # (except f(a, *rest): its operand list has no element function)
     I.ghost.setdefault("helper_contracts_used", set()).add(fd.qualname)
